@@ -25,6 +25,10 @@ PROP = {
         {"target": "c11_main_rc", "sub": "main_runner", "env": {"ASAN_OPTIONS": _ASAN},
          "quick": {"cases": 500, "max_size": 12, "workers": 4, "case_alarm": 600},
          "thorough": {"cases": 6000, "max_size": 12, "workers": 5, "case_alarm": 600}},
+        # back-end runner Start()/Stop() with hooks that take real time (0 / 1-5 ms / 20-150 ms): each case costs 50-900 ms
+        {"target": "c11_main_rc", "sub": "backend_runner", "env": {"ASAN_OPTIONS": _ASAN},
+         "quick": {"cases": 100, "max_size": 10, "workers": 4, "case_alarm": 600},
+         "thorough": {"cases": 1500, "max_size": 12, "workers": 4, "case_alarm": 600}},
     ],
     "assumptions": [
         "every call sequence ends with destruction of the root, with or without a final cleanup() (op `nocleanup`), from whatever state the calls left it in; when a probe root is destroyed with open epochs only the ROOT's own hooks are exempt from the balance (a C++ destructor cannot reach the derived hooks of the object being destroyed) - all modules below it are not; with `plainroot` (plain Module root, like Main()'s apps) nothing is exempt",
@@ -38,6 +42,6 @@ PROP = {
 META = {
     "design_ref": "DESIGN.md section 4, C11",
     "technique": "property-based testing (rapidcheck) and coverage-guided fuzzing (libFuzzer) of generated module trees and call sequences against invariants over a global hook log, complete enumeration of all small trees x flags x outcomes x call sequences, and the same invariants applied to the real Main()/Start()/Stop() runners in a forked child; ASan/UBSan/LSan build",
-    "level_text": "Probe modules (subclasses of tbox::main::Module) record every onInit/onStart/onStop/onCleanup with its result in one global log. Generated trees (<= 25 nodes, depth <= 4, required/optional edges, named/unnamed/addAs nodes, missing config fields, hooks that succeed, fail or fail once) are driven through generated sequences of initialize/start/stop/cleanup on the root (repeats, out-of-order calls), ending with destruction of the root with or without a final cleanup() (from kNone, kInited, kRunning, after stop, after failed initialize/start; probe root or plain-Module root). Checked: per-node hook grammar and final balance, LIFO nesting of all init and start epochs, tear-down order (all stops before all cleanups: no onCleanup below a still-started ancestor, no onStop after an onCleanup within one cleanup()/destruction), parent-before-child / child-before-parent, pre-order within a call, optional failure does not stop siblings or ancestors, return value of initialize()/start() vs. failed required modules, progress of each call, state(). Sub-check exhaustive_small enumerates EVERY tree with <= 4 (quick) / <= 5 (thorough) nodes x every required/optional assignment x {ok, init fails, start fails} per node, plus <= 3 / <= 4 nodes with six outcomes per node, each with EVERY call sequence of length <= 4 followed directly by destruction, and every sequence of length 4 also followed by cleanup()+destruction (597 runs per tree configuration; quick 3 153 951 cases, thorough 66 598 335 cases; the count is reported in counters.enumerated_cases) - exhaustive for that sub-space only. Sub-check main_runner applies the invariants to what tbox::main::Main() and tbox::main::Start()/Stop() do with generated app trees on init failure, start failure, normal SIGTERM shutdown and when the application leaves the loop itself (cleanup of a still running tree). Everything else is exploration: no counter-example among N generated cases.",
+    "level_text": "Probe modules (subclasses of tbox::main::Module) record every onInit/onStart/onStop/onCleanup with its result in one global log. Generated trees (<= 25 nodes, depth <= 4, required/optional edges, named/unnamed/addAs nodes, missing config fields, hooks that succeed, fail or fail once) are driven through generated sequences of initialize/start/stop/cleanup on the root (repeats, out-of-order calls), ending with destruction of the root with or without a final cleanup() (from kNone, kInited, kRunning, after stop, after failed initialize/start; probe root or plain-Module root). Checked: per-node hook grammar and final balance, LIFO nesting of all init and start epochs, tear-down order (all stops before all cleanups: no onCleanup below a still-started ancestor, no onStop after an onCleanup within one cleanup()/destruction), parent-before-child / child-before-parent, pre-order within a call, optional failure does not stop siblings or ancestors, return value of initialize()/start() vs. failed required modules, progress of each call, state(). Sub-check exhaustive_small enumerates EVERY tree with <= 4 (quick) / <= 5 (thorough) nodes x every required/optional assignment x {ok, init fails, start fails} per node, plus <= 3 / <= 4 nodes with six outcomes per node, each with EVERY call sequence of length <= 4 followed directly by destruction, and every sequence of length 4 also followed by cleanup()+destruction (597 runs per tree configuration; quick 3 153 951 cases, thorough 66 598 335 cases; the count is reported in counters.enumerated_cases) - exhaustive for that sub-space only. Sub-checks main_runner and backend_runner (hooks with generated durations that record entry and exit with the thread; no two hooks of a tree may overlap in time) apply the invariants to what tbox::main::Main() and tbox::main::Start()/Stop() do with generated app trees on init failure, start failure, normal SIGTERM shutdown and when the application leaves the loop itself (cleanup of a still running tree). Everything else is exploration: no counter-example among N generated cases.",
     "level_note": "Trusted: the hook log written by the probe modules, the oracle in harness/C11/c11_common.h, fork/pipe plumbing of main_runner. Not covered: the root's own hooks when a probe root is destroyed without cleanup(), add() after initialize(), hooks that throw or re-enter the tree, concurrent calls. The check was developed behind two proposed fixes (harness/C11/proposed-fixes): without 01 every sub-check reports the missing onCleanup/onStop after a required child's failure within the first seconds; without 02 main_runner reports a shutdown deadlock in about 1 of 100 runs.",
 }
